@@ -8,6 +8,7 @@
   statement follow from it.  The correspondence check ties `Model.C19` to the running code.
 -/
 import XlVerif.Lemmas.C19
+import XlVerif.Lemmas.C19Window
 import XlVerif.Gen.Registry
 namespace XlVerif.Props.C19
 open XlVerif XlVerif.Model.C19 XlVerif.Spec.C19 XlVerif.Lemmas.C19 XlVerif.Gen.C19Eng
@@ -637,13 +638,6 @@ theorem conversion_eq (o d : Side) (hod : o ≠ d) (na : NumArg) (n : Int)
 
 /-! ### the refinement theorem -/
 
-/-- the outcome `r` is what the statement demands -/
-def Meets : Want → Res S → Prop
-  | .val v, r => r = .ok v
-  | .err c, r => r = .err c
-  | .anyErr, r => r = .err .num ∨ r = .err .value
-  | .silent, _ => True
-
 theorem places_err_code (pl : Option S) (c : Code) (h : classPlaces true pl = .err c) :
     c = .num ∨ c = .value := by
   cases pl with
@@ -793,25 +787,10 @@ theorem impl_meets_spec (name : List Char) (number : S) (places : Option S) :
 
 /-! ### the clauses of the statement -/
 
-/-- names of the twelve functions -/
-def tag : Radix → List Char
-  | .bin => ['B', 'I', 'N'] | .oct => ['O', 'C', 'T'] | .hex => ['H', 'E', 'X']
-def DEC : List Char := ['D', 'E', 'C']
-/-- `DEC2BIN`, `DEC2OCT`, `DEC2HEX` -/
-def dec2 (r : Radix) : List Char := DEC ++ '2' :: tag r
-/-- `BIN2DEC`, `OCT2DEC`, `HEX2DEC` -/
-def toDec (r : Radix) : List Char := tag r ++ '2' :: DEC
-/-- `BIN2OCT`, … -/
-def cross (r r' : Radix) : List Char := tag r ++ '2' :: tag r'
-
 theorem sides_dec2 (r : Radix) : sides (dec2 r) = some (.dec, .rad r) := by cases r <;> decide
 theorem sides_toDec (r : Radix) : sides (toDec r) = some (.rad r, .dec) := by cases r <;> decide
 theorem sides_cross (r r' : Radix) (h : r ≠ r') : sides (cross r r') = some (.rad r, .rad r') := by
   cases r <;> cases r' <;> first | exact absurd rfl h | decide
-
-/-- integers as arguments -/
-abbrev I (z : Int) : S := .num (.int z)
-abbrev T (s : List Char) : S := .text s
 
 /-- **there and back, reference level**: the reference digits of every integer of the window
     denote that integer. -/
@@ -845,8 +824,9 @@ theorem positional_zeros_append (b j : Nat) (s : List Char) :
     have : digitValue '0' = 0 := by decide
     simp [List.replicate_succ, positional, this, ih]
 
-/-- … also when a non-negative one was left-padded with zeros (to at most ten digits). -/
-theorem x2dec_inverse_padded (r : Radix) (n : Int) (hw : inWindow r n) (h0 : 0 ≤ n) (j : Nat)
+/-- … also when they were left-padded with zeros to at most ten digits (only a non-negative
+    integer has room for that). -/
+theorem x2dec_inverse_padded (r : Radix) (n : Int) (hw : inWindow r n) (j : Nat)
     (hj : j + (refDigits r n).length ≤ 10) :
     decode r (List.replicate j '0' ++ refDigits r n) = some n := by
   have h := x2dec_inverse r n hw
@@ -945,7 +925,7 @@ theorem roundtrip_places (r : Radix) (n : Int) (hw : inWindow r n) (k : Nat) (hk
     by_cases hlen : (refDigits r n).length > k
     · rw [if_pos hlen] at hs; cases hs
     · rw [if_neg hlen] at hs; injection hs with hs; injection hs with hs; subst hs
-      exact x2dec_spec r _ n (x2dec_inverse_padded r n hw (by omega) _ (by omega))
+      exact x2dec_spec r _ n (x2dec_inverse_padded r n hw _ (by omega))
 
 /-- **cross_spec**: a cross conversion of a digit string whose integer lies in the window of the
     destination gives the reference digits of that integer in the destination base; outside the
@@ -1051,6 +1031,16 @@ theorem digits_upper_case (r : Radix) (n : Int) :
       · exact hfix _ h
   exact ⟨this, alphabet_upper c this⟩
 
+/-! ### the binary window decided completely by the kernel -/
+
+/-- every integer of the binary window × places omitted and every places value 1…10, through the
+    model of DEC2BIN, against the reference semantics (`Lemmas.C19.windowChunk`), and the round trip
+    BIN2DEC(DEC2BIN(n)) = n for every integer of the window — by kernel evaluation
+    (`decide +kernel` in `Lemmas/C19Window.lean`), in addition to the arithmetic proofs above. -/
+theorem binary_window_decided :
+    windowChunk (-512) 1024 = true ∧ windowEdges = true ∧ windowRoundtrip = true :=
+  ⟨window_ok, window_edges_ok, window_roundtrip_ok⟩
+
 /-! ### non-vacuity -/
 example : inWindow .bin (-512) ∧ inWindow .oct 536870911 ∧ ¬ inWindow .hex 549755813888 := by decide
 example : call (dec2 .bin) (I (-5)) (some (I 3)) = .ok (T ['1', '1', '1', '1', '1', '1', '1', '0', '1', '1']) := by
@@ -1063,7 +1053,7 @@ example : call (cross .hex .bin) (T ['F', 'F', 'F', 'F', 'F', 'F', 'F', 'D', 'F'
   decide
 example : call (toDec .oct) (T ['7', '8']) none = .err .num := by decide
 example : call (toDec .bin) (.num (.flt (3 / 2))) none = .err .num :=
-  fractional_NUM .bin (.flt (3 / 2)) (Or.inl (by decide))
+  fractional_NUM .bin (.flt (3 / 2)) (Or.inl (by decide +kernel))
 example : call (dec2 .oct) (.bool true) none = .err .value := by decide
 
 end XlVerif.Props.C19
